@@ -109,7 +109,7 @@ LowerIdYields(a, t) ==
 
 (* every joint action of the current state, successor computed once; to find out which conjunct
    fails, put `INVARIANT Tr_<name>` into the cfg *)
-ForAllSteps(P(_, _)) == Unlimited => \A a \in JointActions : P(a, NextState(s, a))
+ForAllSteps(P(_, _)) == Unlimited => \A a \in JointActions : LET t == TLCEval(NextState(s, a)) IN P(a, t)
 TransitionsOK == ForAllSteps(LAMBDA a, t :
   /\ LegalNeverInvalid(a, t) /\ InvalidNoEffect(a, t) /\ AllInvalidChangesNothing(a, t) /\ Conservation(a, t)
   /\ Total(a, t) /\ LowerIdYields(a, t) /\ UncontestedMoves(a, t) /\ RewardRange(a, t) /\ DoneIsAbsorbing(a, t))
